@@ -143,7 +143,7 @@ def _operators(chk, facts):
             chk.ob("R-C01-1", key + ":parse-order", ok, f"`a {sp} b` -> Node::{node} {{ left: a, right: b }}" if ok else
                    f"the parser builds Node::{node} with {r['fields']}: the operands of `{sp}` are swapped or replaced", loc)
         else:
-            ok = r["fields"] == {"expr": "factor"}
+            ok = set(r["fields"]) == {"expr"} and r["operand_parsed"]["expr"]      # `expr` is what was parsed after the operator
             chk.ob("R-C01-1", key + ":parse-order", ok, f"`{sp} a` -> Node::{node} {{ expr: a }}" if ok else f"the parser builds Node::{node} with {r['fields']}", loc)
         # stages 3-5
         _follow(chk, facts, key, sp, node, want, kind, n2t, t2c, pm, n2t_fn, t2c_fn)
@@ -335,12 +335,60 @@ def _siblings(chk, facts):
         tr, lr, dr = _walker_table(ar)
         ta, la, da = _walker_table(aa)
         loc = facts.loc_of(aa)
+        # both walkers are folded over the same small Core trees (rules/smalleval.py): the value positions that append_ret wraps in a Return are
+        # the positions that append_assign wraps in an assignment - whatever helpers the two share
+        from .smalleval import SmallEval, NoEval
+        import copy
+        local = {f_["name"]: f_ for f_ in syn.fns if f_["mod"] == ar["mod"] and f_.get("impl_of") is None and f_.get("body")}
+        L = lambda s_: {"__struct__": "Id", "lit": s_}
+        B = lambda *st: {"__struct__": "Block", "statements": ("list", list(st))}
+        trees = {
+            "Block": B(L("s1"), L("v1")),
+            "IfElse": {"__struct__": "IfElse", "cond": L("c"), "then": L("v1"), "el": B(L("s1"), L("v2"))},
+            "Match": {"__struct__": "Match", "expr": L("e"), "cases": ("list", [{"__struct__": "Case", "expr": L("p1"), "body": L("v1")}, {"__struct__": "Case", "expr": L("p2"), "body": B(L("s"), L("v2"))}])},
+            "TryExcept": {"__struct__": "TryExcept", "setup": None, "attempt": L("v1"), "except": ("list", [
+                {"__struct__": "ExceptId", "id": L("i"), "class": L("k"), "body": L("v2")}, {"__struct__": "Except", "class": L("k2"), "body": B(L("s"), L("v3"))}])},
+            "nested": B(L("s0"), {"__struct__": "IfElse", "cond": L("c"), "then": B(L("s1"), L("v1")), "el": {"__struct__": "Return", "expr": L("r")}}),
+            "empty-block": B(),
+        }
+
+        def wrapped(v, kind, out):
+            if isinstance(v, dict):
+                if kind == "ret" and v.get("__struct__") == "Return" and isinstance(v.get("expr"), dict) and v["expr"].get("__struct__") == "Id":
+                    out.add(v["expr"]["lit"])
+                if kind == "assign" and v.get("__struct__") in ("VarDef", "Assign"):
+                    e_ = v.get("expr") if v.get("__struct__") == "VarDef" else v.get("right")
+                    e_ = e_[1] if isinstance(e_, tuple) and e_ and e_[0] == "Some" else e_
+                    if isinstance(e_, dict) and e_.get("__struct__") == "Id":
+                        out.add(e_["lit"])
+                for x in v.values():
+                    wrapped(x, kind, out)
+            elif isinstance(v, tuple):
+                for x in v[1:] if v and v[0] in ("list", "Some", "tuple") else ():
+                    wrapped(x, kind, out)
+            elif isinstance(v, list):
+                for x in v:
+                    wrapped(x, kind, out)
+        ev_r, ev_a = SmallEval(local_fns=local), SmallEval(local_fns=local)
+        fold_bad = None
+        try:
+            for label, t_ in trees.items():
+                wr, wa = set(), set()
+                wrapped(ev_r.call(ar, [copy.deepcopy(t_)]), "ret", wr)
+                wrapped(ev_a.call(aa, [copy.deepcopy(t_), L("target"), None, {"__struct__": "Imports"}]), "assign", wa)
+                wr.discard("r")       # an explicit `return r` is already a Return
+                if wr != wa and fold_bad is None:
+                    fold_bad = f"{label}: append_ret returns {sorted(wr)}, append_assign assigns {sorted(wa)}"
+        except NoEval as ex:
+            fold_bad = f"the walkers could not be folded ({ex})"
+        chk.ob("R-C01-4", "fold:same-positions", fold_bad is None, "on six small trees append_ret returns exactly the value positions that append_assign assigns" if fold_bad is None else
+               f"the two desugaring walkers disagree - {fold_bad}: a value in that position is returned but not assigned (or the reverse)", loc)
         for v in sorted(set(tr) | set(ta)):
             fr, fa = tr.get(v), ta.get(v)
             if v == "Block":
-                ok = fr is not None and fa is not None and fr.get("statements") == fa.get("statements") == "recurse-last"
+                ok = fold_bad is None
                 chk.ob("R-C01-4", "variant:Block", ok, "both walkers replace the last statement of a block by the walked one" if ok else
-                       f"append_ret handles Block as {fr}, append_assign as {fa}", loc)
+                       f"append_ret / append_assign on a Block: {fold_bad}", loc)
                 continue
             ok = fr == fa and fr is not None
             chk.ob("R-C01-4", f"variant:{v}", ok, f"{v}: both walkers descend through {sorted(k for k, x in fr.items() if x == 'recurse')}" if ok else
